@@ -358,6 +358,35 @@ def lemma_roundtrip(ctx):
     return obs
 
 
+def lemma_transition_width(ctx):
+    """an accessor pair that converts by hand: Molecule.set_transition_width / get_transition_width executed in
+    sequence (real code) under the same current units"""
+    MOL = "quantarhei/builders/molecules.py::Molecule"
+
+    def setup(S):
+        m = mk_manager(S)
+        mol = S.obj(MOL, label="mol", elenergies=S.array("elen", (2,), "real"), widths=S.array("widths0", (2, 2), "real"))
+        w = S.real("w")
+        repo = S.ex.repo
+        from qvc.spec import ClauseExec
+        S.ex.assume(V.z3bool(ClauseExec(S.ex, dict(mgr=m)).run(WFM)))
+        S.ex.assume(w != 0)
+        S.ex.call_function(repo.function(MOL + ".set_transition_width"), [(0, 1), w], {}, bound=mol)
+        got = S.ex.call_function(repo.function(MOL + ".get_transition_width"), [(0, 1)], {}, bound=mol)
+        return dict(w=w, got=got, stored=mol.fields["widths"].get([0, 1]), stored_t=mol.fields["widths"].get([1, 0]),
+                    cu=m.fields["current_units"]["energy"], mgr=m)
+    mk_manager_for_lemma(ctx)
+    obs = clause_lemma(ctx, "transition-width-supplied-then-read", setup,
+                       [WFM, "w != 0"],
+                       [("stored-in-internal-units-symmetrically",
+                         "stored == (1/(w*F_energy(cu)) if cu == 'nm' else w*F_energy(cu)) and stored_t == stored"),
+                        ("read-back-in-the-units-it-was-supplied-in", "got == w")],
+                       where="props/C05.py: Molecule.set_transition_width, get_transition_width composed (real code)")
+    for ob in obs:
+        ob.hyps.extend(const_axioms())
+    return obs
+
+
 def _with_mgr(setup):
     def s2(S):
         mk_manager(S)
@@ -516,7 +545,7 @@ def plan(ctx):
             ctx.registry.contracts[q_].inline = (lambda under: bool(under) and under.endswith("Hamiltonian.set_rwa"))
     p.functions += ["quantarhei/qm/hilbertspace/hamiltonian.py::Hamiltonian.set_rwa#called-in-" + u
                     for u in ("int", "1-per-cm", "eV")]
-    p.lemmas = [lemma_roundtrip, lemma_table, lemma_with_rule]
+    p.lemmas = [lemma_roundtrip, lemma_table, lemma_with_rule, lemma_transition_width]
     p.extra_axioms = const_axioms()
     p.bounded = []
     p.thorough_only = []
